@@ -69,11 +69,11 @@ Ltac split_var :=
 Ltac unf := unfold hook_events, hook_step, requires_lookup, dispatch, capture_cp, clear_cp, clear_pull, set_mask, set_stash,
   set_pull, post_commit_is_cp, post_commit_is_amend, record_cp, rebase_from_stdin, pull_post_rewrite, checkout_core, stash_reftx,
   reset_reftx, cp_in_progress, with_seq, with_refs, with_ra, with_reset, with_stash, with_pull, with_rebase_args, with_squash, env0,
-  head_update, relevant_refs, maskable, is_managed, is_terminal, effects, live, effectful, norm, kind_of, ra_none, ra_pull_action, init in *.
+  head_update, relevant_refs, maskable, is_managed, is_terminal, effects, live, effectful, norm, carry, kind_of, ra_none, ra_pull_action, init in *.
 Ltac simp1 := unf; unfold opt_eqb, is_some, nz, or_else, zero_or, is_null in *; cbn in *.
 Ltac step := simp1; hyps; repeat (progress (simp1; eqs)); try reflexivity; try discriminate.
 Ltac crush := step; repeat (split_var; step).
-Ltac facts f := destruct f as [head ha pa proot ok rbn cphn ip ipa jact jstart jsrcs onto ups coh br utd picks origs news noise srcs mades target bw dirty stop sb sa snew sqsrc merged wl unc pp det].
+Ltac facts f := destruct f as [head ha pa proot ok rbn cphn ip ipa jact jstart jsrcs onto ups coh br utd picks origs news noise srcs mades target bw dirty stop sb sa snew sqsrc merged wl unc pp det asva utp].
 
 Definition stmt c f := wf_firing c f = true -> Known_C13 c f = false ->
   effects f (fst (hook_events (git_fires c f) (pre_state c))) = effects f (wrap_events c f).
